@@ -146,3 +146,55 @@ pub fn shipped_layouts() -> Vec<NamedLayout> {
 pub fn panic_msg(e: &Box<dyn std::any::Any + Send>) -> String {
   e.downcast_ref::<String>().cloned().or_else(|| e.downcast_ref::<&str>().map(|s| s.to_string())).unwrap_or_else(|| "?".into())
 }
+
+/// Every key code the tool knows (the enum's FromPrimitive over the kernel's code space).
+pub fn all_known_keys() -> Vec<KeyCode> {
+  use num_traits::FromPrimitive;
+  let mut v = vec![];
+  for c in 0u16..0x400 { if let Some(k) = <KeyCode as FromPrimitive>::from_u16(c) { v.push(k); } }
+  v
+}
+
+lazy_static::lazy_static! {
+  static ref NON_MOD_KEYS: Vec<KeyCode> = all_known_keys().into_iter().filter(|k| !is_mod(k)).collect();
+  static ref MOD_KEYS: Vec<KeyCode> = all_known_keys().into_iter().filter(|k| is_mod(k)).collect();
+}
+
+/// A random injective renaming of the keys of a case over the whole key-code space: modifiers are
+/// permuted among the eight modifiers, every other key is sent to some other non-modifier key
+/// (`keep` stays fixed, and nothing is sent into it). The mapper is supposed to be indifferent to
+/// which key codes play which role, so all oracles apply unchanged; what the renaming adds is
+/// coverage of the key-code dimension (ranges, parities, aliasing of codes).
+pub fn random_renaming(rng: &mut crate::rng::Rng, used: &[KeyCode], keep: &[KeyCode]) -> std::collections::HashMap<KeyCode, KeyCode> {
+  let mut map = std::collections::HashMap::new();
+  let mut mods: Vec<KeyCode> = MOD_KEYS.clone();
+  for i in (1..mods.len()).rev() { let j = rng.below(i + 1); mods.swap(i, j); }
+  for (i, m) in MOD_KEYS.iter().enumerate() { map.insert(*m, mods[i]); }
+  let mut taken: Vec<KeyCode> = keep.to_vec();
+  for k in used {
+    if is_mod(k) || keep.contains(k) { continue; }
+    if map.contains_key(k) { continue; }
+    // now and then choose the code 512 above/below an already chosen one (codes that collide in
+    // fixed-size tables)
+    let mut cand = None;
+    if !taken.is_empty() && rng.chance(1, 4) {
+      use num_traits::FromPrimitive;
+      let base = rng.pick(&taken) as i32;
+      for delta in [512i32, -512, 256, -256] { if let Some(c) = <KeyCode as FromPrimitive>::from_i32(base + delta) { if !is_mod(&c) && !taken.contains(&c) { cand = Some(c); break; } } }
+    }
+    let mut guard = 0;
+    while cand.is_none() && guard < 100 { guard += 1; let c = rng.pick(&NON_MOD_KEYS); if !taken.contains(&c) { cand = Some(c); } }
+    let c = cand.unwrap_or(*k);
+    taken.push(c);
+    map.insert(*k, c);
+  }
+  for k in keep { map.insert(*k, *k); }
+  map
+}
+pub fn rename_key(map: &std::collections::HashMap<KeyCode, KeyCode>, k: &KeyCode) -> KeyCode { *map.get(k).unwrap_or(k) }
+pub fn rename_event(map: &std::collections::HashMap<KeyCode, KeyCode>, e: &Event) -> Event { match e { Pressed(k) => Pressed(rename_key(map, k)), Released(k) => Released(rename_key(map, k)) } }
+pub fn rename_layout(map: &std::collections::HashMap<KeyCode, KeyCode>, l: &Layout) -> Layout {
+  let r = |v: &Vec<KeyCode>| v.iter().map(|k| rename_key(map, k)).collect::<Vec<_>>();
+  Layout { mappings: l.mappings.iter().map(|m| Mapping { from: r(&m.from), to: r(&m.to), absorbing: r(&m.absorbing),
+    repeat: match &m.repeat { Repeat::Special { keys, delay_ms, interval_ms } => Repeat::Special { keys: r(keys), delay_ms: *delay_ms, interval_ms: *interval_ms }, other => other.clone() } }).collect() }
+}
